@@ -172,7 +172,7 @@ Definition kids_ok_with (F : item -> bool) : bool -> list item -> bool :=
   fix go (it : bool) (ks : list item) : bool :=
     match ks with
     | [] => true
-    | IData v :: r => (negb it || value_falsy v) && data_plain v && go true r
+    | IData v :: r => data_plain v && go true r
     | (INode _ _ _ as e) :: r => F e && go false r
     end.
 Fixpoint item_ok (i : item) : bool :=
